@@ -748,8 +748,8 @@ class Gen:
             if self.on("tokens", 0.15) and types[0].name != "bytes":
                 f.tokens = True
                 f.container = rng.choice(["tlist", "tlist", "list"])
-        if f.types[0].kind in ("prim", "enum") and self.on("nillable", 0.2) and f.container in ("opt", "list", "tlist") and not (f.tokens and f.container == "list"):
-            f.nillable = True
+        if f.types[0].kind in ("prim", "enum") and self.on("nillable", 0.2) and f.container in ("opt", "list", "tlist", "default") and not (f.tokens and f.container == "list"):
+            f.nillable = True  # (with a default value too: nillable="true" default="5" is what the generator emits for such elements)
         if self.on("field_ns", 0.2):
             f.namespace = rng.choice(self.ns_pool + [""])
         if f.container == "list" and not f.tokens and f.types[0].kind in ("prim", "enum") and self.on("wrapper", 0.2):
@@ -1121,6 +1121,8 @@ class InstGen:
                 items[rng.randrange(len(items))] = None  # a None item of a nillable list is an xsi:nil element
             return items if cont == "list" else tuple(items)
         if cont == "default":
+            if f.nillable and rng.random() < 0.25:
+                return None  # nil, not the default
             if rng.random() < 0.4:
                 return dec_value(f.default, self.L.ns)
             v = self.single(f, depth)
